@@ -6,6 +6,9 @@ import (
 	"fmt"
 	"go/token"
 	"go/types"
+	"regexp/syntax"
+	"sort"
+	"strings"
 
 	"golang.org/x/tools/go/ssa"
 )
@@ -604,6 +607,7 @@ func c12r7(c *Ctx, r *Report) {
 			n++
 			okMono := true
 			seen := map[ssa.Value]bool{}
+			pcf := pathConds(f)
 			var walk func(v ssa.Value)
 			walk = func(v ssa.Value) {
 				if seen[v] {
@@ -612,11 +616,32 @@ func c12r7(c *Ctx, r *Report) {
 				seen[v] = true
 				switch x := v.(type) {
 				case *ssa.Phi:
-					for _, e := range x.Edges {
-						walk(e)
+					for j, e := range x.Edges {
+						if _, isPhi := e.(*ssa.Phi); isPhi {
+							walk(e)
+							continue
+						}
+						if _, isConst := e.(*ssa.Const); isConst {
+							continue // initial false or accumulated true
+						}
+						// `old || x`: the non-constant operand is taken only where the old value is false
+						underOldFalse := false
+						for _, dj := range pcf.At(x.Block().Preds[j]) {
+							if hasLit(dj, func(a ssa.Value, v bool) bool {
+								_, isP := a.(*ssa.Phi)
+								return isP && !v && isBoolType(a)
+							}) {
+								underOldFalse = true
+							} else {
+								underOldFalse = false
+								break
+							}
+						}
+						if !underOldFalse {
+							okMono = false
+						}
 					}
 				case *ssa.Const:
-					// initial false or accumulated true
 				default:
 					okMono = false
 				}
@@ -900,4 +925,357 @@ func c20r12(c *Ctx, r *Report) {
 		}
 	}
 	r.floor("skip edges in hasPreviewFlags", n, 1)
+}
+
+// c08r13: the matcher scans under the revision of the request it scans.
+func c08r13(c *Ctx, r *Report) {
+	l := c.L
+	r.rule("C08-R13", "P (must-pass-through up to the scan)", "P1",
+		"in Matcher.Loop every path from taking a request out of the mailbox to scan(request) either stores request.revision into Matcher.revision (together with the cache resets of C04-R9 / C08-R12) or runs over the `equal` edge of a comparison of the two revisions — a weaker test such as compatible() does not count",
+		"a minor revision bump (change-nth, exclude, a --tail rotation) is not adopted: merger and chunk caches of the previous revision keep answering")
+	loop := l.Fn("fzf", "(*Matcher).Loop")
+	scan := l.Fn("fzf", "(*Matcher).scan")
+	fRev := l.Field("fzf", "Matcher", "revision")
+	if loop == nil || scan == nil || fRev == nil {
+		r.unest("anchors", token.NoPos, nil, "anchors Matcher.Loop / scan / Matcher.revision", "cannot resolve")
+		return
+	}
+	var wait ssa.Instruction
+	eachInstr(loop, func(in ssa.Instruction) {
+		if _, ok := isCall(in, "(*"+modPath+"/src/util.EventBox).Wait"); ok {
+			wait = in
+		}
+	})
+	if wait == nil {
+		r.unest("fzf.Matcher.Loop:Wait", loop.Pos(), loop, "the mailbox Wait", "not found")
+		return
+	}
+	isRevCmp := func(v ssa.Value) (neq bool, ok bool) {
+		b, ok2 := v.(*ssa.BinOp)
+		if !ok2 || (b.Op != token.NEQ && b.Op != token.EQL) {
+			return false, false
+		}
+		f1, _ := loadedField(b.X)
+		f2, _ := loadedField(b.Y)
+		if f1 != fRev && f2 != fRev {
+			return false, false
+		}
+		return b.Op == token.NEQ, true
+	}
+	bad := pathAvoiding(wait, func(in ssa.Instruction) bool {
+		call, ok := in.(*ssa.Call)
+		return ok && callIs(call.Common(), scan)
+	}, func(in ssa.Instruction) bool {
+		st, ok := in.(*ssa.Store)
+		if !ok {
+			return false
+		}
+		f, _ := fieldOf(st.Addr)
+		return f == fRev
+	}, func(from, to *ssa.BasicBlock) bool {
+		iff, ok := from.Instrs[len(from.Instrs)-1].(*ssa.If)
+		if !ok {
+			return true
+		}
+		neq, ok := isRevCmp(iff.Cond)
+		if !ok {
+			return true
+		}
+		equalEdge := (neq && to == from.Succs[1]) || (!neq && to == from.Succs[0])
+		return !equalEdge
+	})
+	if bad != nil {
+		r.bad("fzf.Matcher.Loop:revision adopted before scan", bad.Pos(), loop, "scan runs with Matcher.revision == request.revision", "a path reaches scan(request) without adopting the request's revision and without having found the two equal")
+	} else {
+		r.ok("fzf.Matcher.Loop:revision adopted before scan", loop.Pos(), loop, "every path to scan stores the request's revision or passes the equal edge of a revision comparison")
+	}
+}
+
+// c17r12: every escape placeholder that the masking introduces is undone at every un-escape site.
+func c17r12(c *Ctx, r *Report) {
+	l := c.L
+	r.rule("C17-R12", "E (vocabulary agreement between the masker and the un-escape sites)", "P1",
+		"the placeholder runes that stand for an escaped `:` `,` `+` in a masked --bind specification form one vocabulary (the constants escaped*); wherever a key name is compared with two or more of them, it is compared with all of them",
+		"`--bind 'alt-+:...'` (or `,` / `:`) is accepted but bound to an untypable key: the binding silently does nothing")
+	sp := l.pkg("fzf")
+	vocab := map[int64]string{}
+	for _, name := range sp.Pkg.Scope().Names() {
+		cst, ok := sp.Pkg.Scope().Lookup(name).(*types.Const)
+		if !ok || len(name) < 8 || name[:7] != "escaped" {
+			continue
+		}
+		if k, ok := constInt(cst); ok {
+			vocab[k] = name
+		}
+	}
+	r.floor("escape placeholder constants", len(vocab), 3)
+	n := 0
+	for _, fn := range l.AllFuncs() {
+		if fn.Pkg != sp {
+			continue
+		}
+		type cmp struct {
+			x ssa.Value
+			k int64
+			b *ssa.BinOp
+		}
+		var cmps []cmp
+		eachInstr(fn, func(in ssa.Instruction) {
+			b, ok := in.(*ssa.BinOp)
+			if !ok || b.Op != token.EQL {
+				return
+			}
+			bt, ok := b.X.Type().Underlying().(*types.Basic)
+			if !ok || (bt.Kind() != types.Int32 && bt.Kind() != types.Uint8) {
+				return
+			}
+			k, isc := constIntVal(b.Y)
+			if !isc {
+				return
+			}
+			if _, inV := vocab[k]; !inV {
+				return
+			}
+			cmps = append(cmps, cmp{b.X, k, b})
+		})
+		// group by compared value (structurally: element reads are not CSE'd)
+		same := func(a, b ssa.Value) bool {
+			if a == b {
+				return true
+			}
+			la, ok1 := a.(*ssa.Index)
+			lb, ok2 := b.(*ssa.Index)
+			if ok1 && ok2 && la.X == lb.X && sameExpr(la.Index, lb.Index, 0) {
+				return true
+			}
+			ua, ok1 := a.(*ssa.UnOp)
+			ub, ok2 := b.(*ssa.UnOp)
+			if ok1 && ok2 {
+				ia, ok3 := ua.X.(*ssa.IndexAddr)
+				ib, ok4 := ub.X.(*ssa.IndexAddr)
+				return ok3 && ok4 && ia.X == ib.X && sameExpr(ia.Index, ib.Index, 0)
+			}
+			return false
+		}
+		used := make([]bool, len(cmps))
+		for i := range cmps {
+			if used[i] {
+				continue
+			}
+			grp := map[int64]bool{cmps[i].k: true}
+			used[i] = true
+			for j := i + 1; j < len(cmps); j++ {
+				if !used[j] && same(cmps[i].x, cmps[j].x) {
+					grp[cmps[j].k] = true
+					used[j] = true
+				}
+			}
+			if len(grp) < 2 {
+				continue // a lone comparison with 0/1/2 is something else
+			}
+			n++
+			var missing []string
+			for k, name := range vocab {
+				if !grp[k] {
+					missing = append(missing, name)
+				}
+			}
+			sort.Strings(missing)
+			r.check(len(missing) == 0, fmt.Sprintf("%s:un-escape site #%d", relName(fn), n), cmps[i].b.Pos(), fn, "all escape placeholders are recognised here", "not recognised here: "+strings.Join(missing, ", "))
+		}
+	}
+	r.floor("un-escape sites", n, 2)
+}
+
+// c16r10: sizes and timeouts of the request handler.
+func c16r10(c *Ctx, r *Report) {
+	l := c.L
+	r.rule("C16-R10", "D (provenance) + B (census)", "P1",
+		"in the GET handler every slice length computed from the request parameters is clamped at zero (util.Max(0, ..)) before make; handleHttpRequest sets the read deadline outside its line loop (an absolute limit per request, not an idle limit); a POST body is parsed with `put` without argument disallowed (there is no key that triggered it)",
+		"GET /?limit=2&offset=4 on a shorter list: makeslice panics and fzf dies; a client that sends one header line every few seconds holds the single-threaded listener for ever; POST `put` inserts a NUL rune")
+	ds := l.Fn("fzf", "(*Terminal).dumpStatus")
+	h := l.Fn("fzf", "(*httpServer).handleHttpRequest")
+	psl := l.Fn("fzf", "parseSingleActionList")
+	pal := l.Fn("fzf", "parseActionList")
+	if ds == nil || h == nil || psl == nil || pal == nil {
+		r.unest("anchors", token.NoPos, nil, "anchors dumpStatus / handleHttpRequest / parseSingleActionList / parseActionList", "cannot resolve")
+		return
+	}
+	n := 0
+	eachInstr(ds, func(in ssa.Instruction) {
+		mk, ok := in.(*ssa.MakeSlice)
+		if !ok {
+			return
+		}
+		fromParams := false
+		for v := range backwardSlice(mk.Len, func(*ssa.CallCommon) bool { return true }, nil) {
+			if v == ssa.Value(ds.Params[1]) {
+				fromParams = true
+			}
+			if fa, ok := v.(*ssa.FieldAddr); ok {
+				if a, ok := fa.X.(*ssa.Alloc); ok && a.Comment == "params" {
+					fromParams = true
+				}
+			}
+		}
+		if !fromParams {
+			return
+		}
+		n++
+		clamped := false
+		if call, ok := mk.Len.(*ssa.Call); ok && calleeName(call.Common()) == modPath+"/src/util.Max" {
+			if isConstInt(call.Call.Args[0], 0) || isConstInt(call.Call.Args[1], 0) {
+				clamped = true
+			}
+		}
+		r.check(clamped, fmt.Sprintf("fzf.dumpStatus:slice length #%d clamped", n), mk.Pos(), ds, "make(.., util.Max(0, ..))", "a length that depends on limit/offset reaches make without a lower clamp")
+	})
+	r.floor("parameter-dependent slice lengths in dumpStatus", n, 2)
+	nd := 0
+	eachInstr(h, func(in ssa.Instruction) {
+		call, ok := in.(*ssa.Call)
+		if !ok || !call.Common().IsInvoke() || call.Common().Method.Name() != "SetReadDeadline" {
+			return
+		}
+		nd++
+		r.check(!canReachSelf(in), "fzf.handleHttpRequest:read deadline set once", in.Pos(), h, "SetReadDeadline is outside the line loop", "the deadline is re-armed inside the loop: a slow client is never cut off")
+	})
+	r.floor("SetReadDeadline calls in handleHttpRequest", nd, 1)
+	np := 0
+	eachInstr(psl, func(in ssa.Instruction) {
+		call, ok := in.(*ssa.Call)
+		if !ok || call.Common().StaticCallee() != pal {
+			return
+		}
+		np++
+		idx := -1
+		for i, p := range pal.Params {
+			if p.Name() == "putAllowed" {
+				idx = i
+			}
+		}
+		okArg := false
+		if idx >= 0 {
+			if bv, isb := constBool(call.Call.Args[idx]); isb && !bv {
+				okArg = true
+			}
+		}
+		r.check(okArg, "fzf.parseSingleActionList:put without argument disallowed", in.Pos(), psl, "putAllowed = false", "a key-less action list may contain a bare `put`")
+	})
+	r.floor("parseActionList calls in parseSingleActionList", np, 1)
+}
+
+// c08r14: every way of matching a chunk asks for positions alike.
+func c08r14(c *Ctx, r *Report) {
+	l := c.L
+	r.rule("C08-R14", "E (sibling agreement of call sites)", "P1",
+		"all calls of Pattern.MatchItem inside Pattern.matchChunk — full scan and narrowing of a cached result, with and without exclusion list — pass Pattern.withPos as the position request: rank keys that need exact positions do not depend on whether the result was obtained by narrowing",
+		"after typing one more character the ranking differs from a fresh search (and the differing ranks are stored in the cache)")
+	mc := l.Fn("fzf", "(*Pattern).matchChunk")
+	mi := l.Fn("fzf", "(*Pattern).MatchItem")
+	fWP := l.Field("fzf", "Pattern", "withPos")
+	if mc == nil || mi == nil || fWP == nil {
+		r.unest("anchors", token.NoPos, nil, "anchors Pattern.matchChunk / MatchItem / withPos", "cannot resolve")
+		return
+	}
+	n := 0
+	eachInstr(mc, func(in ssa.Instruction) {
+		call, ok := in.(*ssa.Call)
+		if !ok || !callIs(call.Common(), mi) {
+			return
+		}
+		n++
+		f, _ := loadedField(callArgs(call.Common())[2])
+		r.check(f == fWP, fmt.Sprintf("fzf.matchChunk:MatchItem #%d position request", n), in.Pos(), mc, "withPos argument = p.withPos", "this loop asks for positions differently from its siblings")
+	})
+	r.floor("MatchItem calls in matchChunk", n, 3)
+}
+
+// c12r8: escaping applies to every form of placeholder.
+func c12r8(c *Ctx, r *Report) {
+	l := c.L
+	r.rule("C12-R8", "E (structure of a constant regular expression)", "P1",
+		"the placeholder pattern is one optional backslash followed by one group that contains ALL placeholder forms: parsed with regexp/syntax it is a concatenation whose first element is `\\\\?`, with no alternative outside that concatenation",
+		"an escaped placeholder of the form left outside (`\\{q:1}`) is expanded: the query text lands outside the shell quoting and is executed")
+	g := l.Global("fzf", "placeholder")
+	if g == nil {
+		r.unest("anchors", token.NoPos, nil, "anchor var placeholder", "cannot resolve")
+		return
+	}
+	var pat string
+	found := false
+	for _, fn := range l.AllFuncs() {
+		if fn.Pkg != l.pkg("fzf") {
+			continue
+		}
+		eachInstr(fn, func(in ssa.Instruction) {
+			st, ok := in.(*ssa.Store)
+			if !ok || st.Addr != ssa.Value(g) {
+				return
+			}
+			if call, ok := st.Val.(*ssa.Call); ok && calleeName(call.Common()) == "regexp.MustCompile" {
+				if s, isc := constString(call.Call.Args[0]); isc {
+					pat, found = s, true
+				}
+			}
+		})
+	}
+	if !found {
+		r.unest("fzf.placeholder:pattern", g.Pos(), nil, "placeholder = regexp.MustCompile(<constant>)", "not found")
+		return
+	}
+	re, err := syntax.Parse(pat, syntax.Perl)
+	if err != nil {
+		r.unest("fzf.placeholder:pattern", g.Pos(), nil, "the pattern parses", err.Error())
+		return
+	}
+	okShape := re.Op == syntax.OpConcat && len(re.Sub) >= 2 && re.Sub[0].Op == syntax.OpQuest && re.Sub[0].Sub[0].Op == syntax.OpLiteral && string(re.Sub[0].Sub[0].Rune) == "\\"
+	r.check(okShape, "fzf.placeholder:optional backslash covers every form", g.Pos(), nil, "`\\\\?(?: all forms )`", "the pattern is an alternation at top level (or does not start with the optional backslash): some form cannot be escaped")
+}
+
+// c19r6: a failing entry does not end the walk.
+func c19r6(c *Ctx, r *Report) {
+	l := c.L
+	r.rule("C19-R6", "A (path condition of the error branch)", "P1",
+		"in the walk callback of readFiles every return reached with a non-nil entry error returns nil: an unreadable directory is skipped, the walk (and the remaining roots) go on",
+		"one directory without read permission makes fastwalk abort: the rest of the tree and every further --walker-root are missing from the list")
+	rf := l.Fn("fzf", "(*Reader).readFiles")
+	if rf == nil {
+		r.unest("anchors", token.NoPos, nil, "anchor Reader.readFiles", "cannot resolve")
+		return
+	}
+	n := 0
+	for _, fn := range withClosures(rf) {
+		if fn == rf || fn.Signature.Params().Len() != 3 {
+			continue
+		}
+		// the callback: func(path string, de os.DirEntry, err error) error
+		errParam := fn.Params[len(fn.Params)-1]
+		if errParam.Type().String() != "error" {
+			continue
+		}
+		pc := pathConds(fn)
+		for _, b := range fn.Blocks {
+			ret, ok := b.Instrs[len(b.Instrs)-1].(*ssa.Return)
+			if !ok {
+				continue
+			}
+			under, reachable := pc.Implies(b, func(lits []Lit) bool {
+				return hasLit(lits, func(a ssa.Value, v bool) bool {
+					bo, ok := a.(*ssa.BinOp)
+					if !ok || bo.X != ssa.Value(errParam) {
+						return false
+					}
+					return (bo.Op == token.NEQ && v) || (bo.Op == token.EQL && !v)
+				})
+			})
+			if !under || !reachable {
+				continue // (the synthetic recover block of a function with defers is not reachable)
+			}
+			n++
+			cst, isc := retResult(ret, 0).(*ssa.Const)
+			r.check(isc && cst.IsNil(), fmt.Sprintf("%s:entry error is skipped", relName(fn)), ret.Pos(), fn, "return nil under err != nil", "the entry's error is returned to fastwalk, which aborts the walk")
+		}
+	}
+	r.floor("returns of the walk callback under err != nil", n, 1)
 }
